@@ -14,13 +14,13 @@ import (
 func init() { drivers["C17"] = runC17; replayers["C17"] = replayC17 }
 
 type regCall struct {
-	V     int       `json:"v"`
-	Title string    `json:"title"`
+	V     int        `json:"v"`
+	Title string     `json:"title"`
 	Tags  *[6]string `json:"tags,omitempty"`
-	Clr   int       `json:"clr"` // -1 none
-	Bg    int       `json:"bg"`
-	Treat int       `json:"treat"` // 12 = none
-	Err   int       `json:"err"`   // 0 not given, 1 true, 2 false
+	Clr   int        `json:"clr"` // -1 none
+	Bg    int        `json:"bg"`
+	Treat int        `json:"treat"` // 12 = none
+	Err   int        `json:"err"`   // 0 not given, 1 true, 2 false
 	// observed
 	Res string `json:"result"` // ok | refused
 }
@@ -101,7 +101,7 @@ func genRegCall(rg *Rng, i int) regCall {
 type lvlObs struct {
 	L       int      `json:"l"`
 	Str     string   `json:"str"`
-	Tags    []string `json:"tags"` // ShortTag(1..5)
+	Tags    []string `json:"tags"`  // ShortTag(1..5)
 	Parse   int      `json:"parse"` // ParseLevel(String()) or -9999 on error
 	TextRT  int      `json:"text_rt"`
 	JSONRT  int      `json:"json_rt"`
